@@ -360,4 +360,17 @@ theorem C17_copy_independent (T : Tables) (op : BinOp) (s : Store) (hok : StoreO
   · intro s2 h2
     exact (C17_iop_frame T op s1 s2 cid aid c a rhs hc1 ha1 (Ne.symm hne) (by omega) h2).1
 
+/-- the premises `ViewOK` / `ShapeOK` of the theorems above are met by every freshly allocated Array whose data
+    fill its shape (constructor, copy, result of an operator): reachable states are not excluded -/
+theorem alloc_viewOK (s : Store) (v : ArrV) (hlen : v.data.length = shapeSize v.shape) :
+    ∃ a, (s.allocArr v).1.arrO? (s.allocArr v).2 = some a ∧ ViewOK (s.allocArr v).1 a ∧ ShapeOK a := by
+  refine ⟨{ buf := s.bufs.length, idx := List.range v.data.length, shape := v.shape, unit := v.unit, name := v.name }, ?_, ?_, ?_⟩
+  · simp only [Store.allocArr, Store.arrO?]
+    simp only [List.getElem?_append_right (Nat.le_refl _), Nat.sub_self, List.getElem?_cons_zero]
+  · refine ⟨List.nodup_range, { dtype := v.dtype, data := v.data }, ?_, ?_⟩
+    · simp only [Store.allocArr]
+      simp only [List.getElem?_append_right (Nat.le_refl _), Nat.sub_self, List.getElem?_cons_zero]
+    · intro i hi; simpa using hi
+  · simp [ShapeOK, hlen]
+
 end Osyris.C17
